@@ -787,6 +787,10 @@ func genChainReq(tp *sim.Tape, cfg *ChainCfg, k chainKnobs, id int) *ChainReq {
 	if tp.Chance(120) {
 		r.N = 0
 	}
+	if k.encoding && tp.Chance(40) {
+		// sizes around the buffer and window boundaries of bufio / flate
+		r.N = []int{4095, 4096, 4097, 32767, 32768, 32769, 65535, 65536, 65537}[tp.G(9)]
+	}
 	r.Chunks = chunkPlan(tp, tp.Range(1, 4), 1+r.N)
 	r.payload = sim.PayloadBytes(fmt.Sprintf("h%d", id), r.N)
 	r.Flush = cfg.Flusher && tp.Chance(200)
